@@ -356,24 +356,33 @@ func (r *brun) incr(s, e uint64, fork *brun, forkAt int, rng *rand.Rand) {
 	ev["re"] = back.End
 	ev["path"] = r.pathTerms(back.AuditPath)
 
-	verify := func(ir *protocol.IncrementalResponse, sd, ed hashing.Digest) (bool, bool) {
+	// the verifier is handed whole snapshots, as a client holds them: version sv / ev, the given
+	// history digest (the version is that of the snapshot the digest was taken from)
+	snapOf := func(v uint64, hd hashing.Digest) *balloon.Snapshot {
+		sn := &balloon.Snapshot{Version: v, HistoryDigest: hd}
+		if int(v) < len(r.snaps) {
+			sn.EventDigest, sn.HyperDigest = r.snaps[v].s.EventDigest, r.snaps[v].s.HyperDigest
+		}
+		return sn
+	}
+	verifyV := func(ir *protocol.IncrementalResponse, sv uint64, sd hashing.Digest, evv uint64, ed hashing.Digest) (bool, bool) {
 		var ok bool
 		p, _ := guard(func() {
-			ok = protocol.ToIncrementalProof(ir, symhash.New).Verify(&balloon.Snapshot{HistoryDigest: sd}, &balloon.Snapshot{HistoryDigest: ed})
+			ok = protocol.ToIncrementalProof(ir, symhash.New).Verify(snapOf(sv, sd), snapOf(evv, ed))
 		})
 		return ok, p
 	}
 	sd, ed := r.snaps[s].s.HistoryDigest, r.snaps[e].s.HistoryDigest
 	var vLocal bool
-	guard(func() { vLocal = proof.Verify(&balloon.Snapshot{HistoryDigest: sd}, &balloon.Snapshot{HistoryDigest: ed}) })
-	vWire, _ := verify(&back, sd, ed)
+	guard(func() { vLocal = proof.Verify(snapOf(s, sd), snapOf(e, ed)) })
+	vWire, _ := verifyV(&back, s, sd, e, ed)
 	ev["v_local"] = vLocal
 	ev["v_wire"] = vWire
 
 	// alterations: each is described so that the specification can compute the expected verdict
 	alts := []interface{}{}
-	addAlt := func(desc trace.Ev, ir *protocol.IncrementalResponse, a, b hashing.Digest) {
-		acc, p := verify(ir, a, b)
+	addAltV := func(desc trace.Ev, ir *protocol.IncrementalResponse, av uint64, a hashing.Digest, bv uint64, b hashing.Digest) {
+		acc, p := verifyV(ir, av, a, bv, b)
 		desc["acc"] = acc
 		if p {
 			desc["panic"] = true
@@ -382,23 +391,23 @@ func (r *brun) incr(s, e uint64, fork *brun, forkAt int, rng *rand.Rand) {
 	}
 	n := len(r.snaps)
 	for _, ov := range otherVersions(n, int(s)) {
-		addAlt(trace.Ev{"k": "start_other", "v": ov}, &back, r.snaps[ov].s.HistoryDigest, ed)
+		addAltV(trace.Ev{"k": "start_other", "v": ov}, &back, uint64(ov), r.snaps[ov].s.HistoryDigest, e, ed)
 	}
 	for _, ov := range otherVersions(n, int(e)) {
-		addAlt(trace.Ev{"k": "end_other", "v": ov}, &back, sd, r.snaps[ov].s.HistoryDigest)
+		addAltV(trace.Ev{"k": "end_other", "v": ov}, &back, s, sd, uint64(ov), r.snaps[ov].s.HistoryDigest)
 		if ov != int(s) {
 			// both digests replaced by the same other version's digest
-			addAlt(trace.Ev{"k": "both_other", "v": ov}, &back, r.snaps[ov].s.HistoryDigest, r.snaps[ov].s.HistoryDigest)
+			addAltV(trace.Ev{"k": "both_other", "v": ov}, &back, uint64(ov), r.snaps[ov].s.HistoryDigest, uint64(ov), r.snaps[ov].s.HistoryDigest)
 		}
 	}
 	if fork != nil && int(e) < len(fork.snaps) && forkAt <= int(s) {
 		// both digests taken from the forked log
-		addAlt(trace.Ev{"k": "both_fork", "at": forkAt}, &back, fork.snaps[s].s.HistoryDigest, fork.snaps[e].s.HistoryDigest)
+		addAltV(trace.Ev{"k": "both_fork", "at": forkAt}, &back, s, fork.snaps[s].s.HistoryDigest, e, fork.snaps[e].s.HistoryDigest)
 	}
 	if fork != nil && int(e) < len(fork.snaps) {
 		// the fork agrees with this log on versions < forkAt: only later digests differ
-		addAlt(trace.Ev{"k": "end_fork", "at": forkAt}, &back, sd, fork.snaps[e].s.HistoryDigest)
-		addAlt(trace.Ev{"k": "start_fork", "at": forkAt}, &back, fork.snaps[s].s.HistoryDigest, ed)
+		addAltV(trace.Ev{"k": "end_fork", "at": forkAt}, &back, s, sd, e, fork.snaps[e].s.HistoryDigest)
+		addAltV(trace.Ev{"k": "start_fork", "at": forkAt}, &back, s, fork.snaps[s].s.HistoryDigest, e, ed)
 	}
 	// single-entry alterations: replace by another entry of the same path / drop
 	keys := make([]string, 0, len(back.AuditPath))
@@ -415,12 +424,12 @@ func (r *brun) incr(s, e uint64, fork *brun, forkAt int, rng *rand.Rand) {
 			}
 			if t == 0 {
 				delete(alt.AuditPath, k)
-				addAlt(trace.Ev{"k": "drop", "key": k}, &alt, sd, ed)
+				addAltV(trace.Ev{"k": "drop", "key": k}, &alt, s, sd, e, ed)
 			} else {
 				src := r.snaps[rng.Intn(n)].s.HistoryDigest
 				if !bytes.Equal(src, alt.AuditPath[k]) {
 					alt.AuditPath[k] = src
-					addAlt(trace.Ev{"k": "replace", "key": k}, &alt, sd, ed)
+					addAltV(trace.Ev{"k": "replace", "key": k}, &alt, s, sd, e, ed)
 				}
 			}
 		}
@@ -428,12 +437,12 @@ func (r *brun) incr(s, e uint64, fork *brun, forkAt int, rng *rand.Rand) {
 	if s > 0 {
 		alt := back
 		alt.Start = s - 1
-		addAlt(trace.Ev{"k": "start_field", "v": s - 1}, &alt, sd, ed)
+		addAltV(trace.Ev{"k": "start_field", "v": s - 1}, &alt, s, sd, e, ed)
 	}
 	if e > s {
 		alt := back
 		alt.End = e - 1
-		addAlt(trace.Ev{"k": "end_field", "v": e - 1}, &alt, sd, ed)
+		addAltV(trace.Ev{"k": "end_field", "v": e - 1}, &alt, s, sd, e, ed)
 	}
 	ev["alts"] = alts
 	r.tw.Emit(ev)
